@@ -7,7 +7,7 @@ ROOT = os.path.dirname(os.path.dirname(os.path.abspath(__file__)))
 # id -> (technique, level text, level note, design ref)
 CHECKS = {
     "C01": ("runtime monitor: instrumented data type (free term algebra + wrapping-i64 ring) at the public API, reference-tree oracle",
-            "Exploration: the real parser/evaluator runs over a term-algebra data type, so eval returns the applied tree; hundreds of thousands (quick) to tens of millions (thorough) of generated (operator table, tree, rendering) cases are compared with an independent reference semantics modulo AC of flagged operators, plus exact value equality on the wrapping-i64 ring. Held = no observed execution deviates; not a proof.",
+            "Exploration: the real parser/evaluator runs over a term-algebra data type, so eval returns the applied tree; hundreds of thousands (quick) to tens of millions (thorough) of generated (operator table, tree, rendering) cases are compared with an independent reference semantics modulo AC of flagged operators, plus exact value equality on the wrapping-i64 ring; evaluation from a slice and through the consuming eval_vec / eval_iter. Held = no observed execution deviates; not a proof.",
             "Trusted: the harness' reference semantics (structural recursion over the generated tree), the renderer as definition of the surface syntax, AC normal form. Priorities 0..=99.",
             "DESIGN.md 3/C01"),
     "C02": ("runtime monitor: term-algebra differential of folded / unfolded / re-folded / deep forms, exhaustive small chains + random trees + token soup",
@@ -15,31 +15,31 @@ CHECKS = {
             "Trusted: reference semantics and AC normal form; commutative flag read as associative-commutative (the quantifier's restriction).",
             "DESIGN.md 3/C02"),
     "C03": ("runtime monitor: conversion histories flat<->deep over the term algebra, operator-listing oracle, flat-vs-deep soup differential",
-            "Exploration: every form reached by random conversion histories must show the reference tree's variables and term; operator listings are checked against the tree; arbitrary strings accepted by both parsers must agree in every form.",
+            "Exploration: every form reached by random conversion histories must show the reference tree's variables and term; operator listings are checked against the tree; arbitrary strings accepted by both parsers must agree in every form. Operator tables include negative priorities and priorities spread up to 99 000 (the statement says all operator tables).",
             "Trusted: reference semantics; equal acceptance of sloppy strings is deliberately not demanded.",
             "DESIGN.md 3/C03"),
     "C04": ("runtime monitor: hostile variable-name families and every slice length, term-algebra binding oracle",
-            "Exploration: names from ASCII / digit / Greek / arbitrary-braced families (0..40 distinct, beyond the inline capacity 16), var_names compared with Rust's sort of the distinct names, binding observed symbolically (Var(i) must sit at every occurrence of the i-th name), every slice length 0..n+3 on all evaluation entry points, derived expressions' variable lists, shipped float and value tables.",
+            "Exploration: names from ASCII / digit / Greek / arbitrary-braced families (0..40 distinct, beyond the inline capacity 16; long chains with up to 520 distinct names), var_names compared with Rust's sort of the distinct names, binding observed symbolically (Var(i) must sit at every occurrence of the i-th name), every slice length 0..n+3 on all evaluation entry points, derived expressions' variable lists and arity also when they are constant in value, shipped float and value tables.",
             "Trusted: Rust's str ordering as the reference order; reference tree.",
             "DESIGN.md 3/C04"),
     "C05": ("runtime monitor: forward-mode dual numbers on the reference tree as oracle, exact rational arithmetic + guarded f64 comparison",
-            "Exploration: derivatives obtained through four code paths (flat, deep, converted both ways) and a second time for order 2 are evaluated at random points and compared with dual-number derivatives of the reference tree: equality over exact rationals, 1e-9 relative (plus 1e-10 of the largest intermediate magnitude) over f64 at guarded, well-conditioned interior points. Every derivative rule must have been exercised or the run is inconclusive; operators without a rule over a variable must give Err.",
+            "Exploration: derivatives obtained through four code paths (flat, deep, converted both ways) and a second time for order 2 (two single calls, partial_iter, partial_nth), plus long single-level chains parsed directly as deep expressions, are evaluated at random points and compared with dual-number derivatives of the reference tree: equality over exact rationals, 1e-9 relative (plus 1e-10 of the largest intermediate magnitude) over f64 at guarded, well-conditioned interior points. Every derivative rule must have been exercised or the run is inconclusive; operators without a rule over a variable must give Err.",
             "Trusted: the dual-number rules in num.rs (the mathematical derivative table written independently); guards discard ~40 % of sampled points.",
             "DESIGN.md 3/C05"),
-    "C06": ("runtime monitor: all entry points and follow-up operations under catch_unwind over exhaustive short strings, token soup, mutated corpus, long/deep texts on an 8 MiB stack with in-flight witness files, hang monitor",
+    "C06": ("runtime monitor: all entry points and follow-up operations under catch_unwind over exhaustive short strings, token soup, vector token soup, mutated corpus, texts nested behind value-table operators, long/deep texts on an 8 MiB stack with in-flight witness files, hang monitor",
             "Exploration with an exhaustive sub-space (all strings of <=4/6 tokens over a 14-symbol alphabet): every text goes through ten parsing entry points and, when accepted, through evaluation, conversion, printing, listings, serde, operator application, substitution and differentiation. Panics are caught and attributed to their source location; aborts (stack overflow) kill the process, which ./check reports as a crash with the in-flight text; a hang monitor reports a text that keeps a worker busy for minutes.",
             "Trusted: catch_unwind; differentiation only for texts <= 80 tokens / nesting <= 20 (the property excludes deeper recursion of the deep form).",
             "DESIGN.md 3/C06"),
     "C07": ("runtime monitor: exhaustive single-point damage of rendered well-formed texts, all parser entry points must return Err",
-            "Fault-style exploration: for every generated well-formed text ALL single-point damages of the listed kinds are applied (each parenthesis deleted; '(' , ')' and an illegal character inserted at every character position outside braces; every binary operator appended; an extra operand placed left and right of every primary operand token) and every parser entry point (term-algebra tables, shipped float table, shipped value table) must reject. ~10^6 damaged variants in the quick tier.",
+            "Fault-style exploration: for every generated well-formed text ALL single-point damages of the listed kinds are applied (each parenthesis deleted; '(' , ')' and an illegal character inserted at every character position outside braces; every binary operator appended; an extra operand placed left and right of every primary operand token, with and without a separator) and every parser entry point (term-algebra tables, shipped float table, shipped value table) must reject. ~10^6 damaged variants in the quick tier.",
             "Trusted: the renderer produces well-formed texts (originals rejected by all parsers are skipped and counted); the illegal-character set is disjoint from every table in use; tab/newline are not treated as illegal.",
             "DESIGN.md 3/C07"),
     "C08": ("runtime monitor: call-form renderings of reference trees over the term algebra + call text vs literal ((a) op (b)) expansion on the shipped tables",
-            "Exploration with an exhaustive sub-space (all tree shapes with <=3 binary operators x all call/infix subsets x 4 tables) plus random trees with calls at every position (first/second argument, under unary functions, inside parentheses, symbolic and dual operators); positions reached are measured from the rendered tokens and required to be non-zero.",
+            "Exploration with an exhaustive sub-space (all tree shapes with <=3 binary operators x all call/infix subsets x 4 tables) plus random trees with calls at every position (first/second argument, under unary functions, inside parentheses, symbolic and dual operators); positions reached are measured from the rendered tokens and required to be non-zero; every other case runs after the same thread parsed a call text that is rejected half-way.",
             "Trusted: reference semantics; expand_calls (token-level rewrite literally following the property statement).",
             "DESIGN.md 3/C08"),
     "C09": ("runtime monitor: differentiation histories (index sequences x four ways of differentiating) with hook H2 counting started derivative computations, exact-rational and guarded-f64 equivalence oracles",
-            "Exploration: index sequences of length 0..4 incl. out-of-range entries at every position, on FlatEx and DeepEx, through partial / partial_nth / partial_iter / relaxed variants; out-of-range must be Err with the H2 work counter unchanged; all ways agree at random points (exactly over rationals); order zero is the identity (also partial_nth(_,0)); mixed partials commute and match the nested-dual reference.",
+            "Exploration: index sequences of length 0..4 incl. out-of-range entries at every position, on FlatEx and DeepEx, through partial / partial_nth / partial_iter / relaxed variants; out-of-range must be Err with the H2 work counter unchanged; all ways agree at random points (exactly over rationals); order zero is the identity (also partial_nth(_,0)); mixed partials commute and match the nested-dual reference; in the relaxed modes repeated / n-th / iterated differentiation agree on trees with rule-less operators; invalid indices on long non-ASCII texts.",
             "Trusted: hook H2 counts every call of partial_deepex; dual-number reference. Repeated single partial calls are allowed to work before reaching a bad index.",
             "DESIGN.md 3/C09"),
     "C10": ("runtime monitor: operator-application histories over expression pools; term-algebra oracle for by-name application, exact-rational / guarded-f64 oracle for overloaded arithmetic with shortcut-hit counters",
@@ -55,19 +55,19 @@ CHECKS = {
             "Trusted: reference tree; a derivative's printed text can only bring back variables that still occur (C09 keeps the full list), so derivatives are compared binding by name.",
             "DESIGN.md 3/C12"),
     "C13": ("runtime monitor: reference lexer + recursive-descent reference parser as oracle over targeted lexical families, exhaustive literal spellings",
-            "Exploration with exhaustive sub-spaces (all strings of length <=5 over [0-9.]; all sign chains of length <=4): every operator/constant name of 7 tables (default float names, value-table names, unary/constant/binary and symbolic prefix chains, Greek, digits in names) is extended / truncated / followed by every kind of continuation, and the real parsers' variable lists and terms are compared with the documented reading computed by an independent reference lexer and parser.",
+            "Exploration with exhaustive sub-spaces (all strings of length <=5 over [0-9.]; all sign chains of length <=4): every operator/constant name of 8 tables (small ones also reversed) (default float names, value-table names, unary/constant/binary and symbolic prefix chains, Greek, digits in names, binary names that are prefixes of unary names and constants) is extended / truncated / followed by every kind of continuation, and the real parsers' variable lists and terms are compared with the documented reading computed by an independent reference lexer and parser.",
             "Trusted: the reference lexer/parser (model.rs, ~200 lines, no regexes); texts the model rejects are not judged except invalid number spellings.",
             "DESIGN.md 3/C13"),
     "C14": ("runtime monitor: reduction-trace hook (H1) checked online against a shadow consumed-set, term-algebra result oracle, tracker driven directly against Vec<bool>",
-            "Exploration with an exhaustive sub-space: every application order of chains with up to 8 (quick) / 9 (thorough) operands, structured and random orders at lengths straddling 32/64/128/192/256/500/1000 operands; each reduction step of eval_binary is observed through hook H1 and checked (nearest live operands, nothing consumed twice, order imposed by priorities), the final term is compared with the model, and both NumberTracker implementations are driven directly against a Vec<bool> shadow.",
+            "Exploration with an exhaustive sub-space: every application order of chains with up to 8 (quick) / 9 (thorough) operands, structured and random orders at lengths straddling 32/64/128/192/256/500/1000 operands; each reduction step of eval_binary is observed through hook H1 and checked (nearest live operands, nothing consumed twice, order imposed by priorities), the final term is compared with the model (also for chains of shuffled / repeated variables and literals through eval_vec and eval_iter), and both NumberTracker implementations are driven directly against a Vec<bool> shadow.",
             "Trusted: the 30-line chain-reduction model; hook H1 records (op, left, right, n) faithfully.",
             "DESIGN.md 3/C14"),
     "C15": ("runtime monitor: move/clone/placeholder-tracking value type at the public API",
-            "Exploration: the flat evaluator runs over a value type that counts clones per variable identity and flags default placeholders; every operand reaching an operator is inspected. eval_vec/eval_iter are compared with eval and with the reference tree on ~10^5 (quick) random expressions with arbitrary repetition patterns.",
+            "Exploration: the flat evaluator runs over a value type that counts clones per variable identity and flags default placeholders; every operand reaching an operator is inspected. eval_vec/eval_iter are compared with eval and with the reference tree on ~10^5 (quick) random expressions with arbitrary repetition patterns; a second tracking type (8 bytes, plain data, observable Clone) repeats the move/clone check.",
             "Trusted: Tok's Clone/Default instrumentation; nothing demanded about clone counts of repeated variables.",
             "DESIGN.md 3/C15"),
     "C16": ("runtime monitor: exhaustive operator x special-operand catalogue against a reference interpreter of the documented rules; expression-level differential against the operator functions applied along the reference tree",
-            "Fault-style enumeration + exploration: every operator of both shipped instantiations of the value table x every catalogue value / ordered pair (about 2*10^5 applications) plus random operands is compared with a reference interpreter that asserts only what the documentation promises; random value-typed expressions through parse_val are compared with the reference-tree evaluation.",
+            "Fault-style enumeration + exploration: every operator of both shipped instantiations of the value table x every catalogue value / ordered pair (about 2*10^5 applications) plus random operands is compared with a reference interpreter that asserts only what the documentation promises; random value-typed expressions through parse_val are compared with the reference-tree evaluation (an error reached only by a permitted regrouping of a flagged operator's chain is not judged).",
             "Trusted: valmodel.rs (documented rules only; undocumented pairs are NoClaim); the sign of a zero from min/max is unspecified in Rust and compared with ==.",
             "DESIGN.md 3/C16"),
     "C17": ("runtime monitor: operator x special-operand catalogue under catch_unwind in two build profiles (release, overflow-checks+debug-assertions), the same operands through parse-time folding",
@@ -75,7 +75,7 @@ CHECKS = {
             "Trusted: valmodel.rs for where an error value is promised; catch_unwind (an abort would kill the process and is reported by ./check as a crash).",
             "DESIGN.md 3/C17"),
     "C18": ("runtime monitor: typed dual-number evaluator (documented int/float/bool typing, branch selection) as oracle for derivatives of value-typed piecewise expressions",
-            "Exploration: nested `f if cond else g` expressions with mixed integer/float literals are differentiated through FlatExVal and DeepEx and evaluated at float points on both sides of the branch conditions; the reference differentiates the branch selected at the point. One genuine defect class (K1, integer division in derivative constants) is carved out of the generator by predicate and kept as a fixed witness catalogue reported as KNOWN-FINDING.",
+            "Exploration: nested `f if cond else g` expressions with mixed integer/float literals are differentiated through FlatExVal and DeepEx and evaluated at float points on both sides of the branch conditions, plus piecewise integer polynomials at integer-typed points (exact) and branches that are long single-level chains; the reference differentiates the branch selected at the point. One genuine defect class (K1, integer division in derivative constants) is carved out of the generator by predicate and kept as a fixed witness catalogue reported as KNOWN-FINDING.",
             "Trusted: the typed evaluator in c18.rs; variables bound to Float values; conditions depend on at least one variable (the property's quantifier).",
             "DESIGN.md 3/C18"),
     "C19": ("runtime monitor: name -> Rust primitive reference table applied to an exhaustive special-value catalogue and random values, directly and through parsed one-operator expressions",
@@ -83,7 +83,7 @@ CHECKS = {
             "Trusted: the independent name->primitive table in c19.rs; the zero sign of min/max is unspecified in Rust and exempt.",
             "DESIGN.md 3/C19"),
     "C20": ("sanitizers + runtime monitor: thread workload in fresh processes compared with a sequential run; ThreadSanitizer (-Zbuild-std); Miri with several scheduler seeds; compile-time Send+Sync assertion crate",
-            "Exploration of schedules: N fresh processes x 16 threads racing the first-use initialisation and evaluating shared expressions, results bit-identical to a sequential run and identical across processes; the same workload under ThreadSanitizer and under Miri (data races, UB). Arrival orders at the initialisation race are recorded and counted (interleavings actually seen).",
+            "Exploration of schedules: N fresh processes x 16 threads racing the first-use initialisation and evaluating shared expressions, results bit-identical to a sequential run and identical across processes (the digest includes probe texts parsed through five data types; the first parse of a thread uses a thread-dependent data type); an evaluation that panics in a user operator is part of the evaluation history; the same workload under ThreadSanitizer and under Miri (data races, UB). Arrival orders at the initialisation race are recorded and counted (interleavings actually seen).",
             "Trusted: TSan/Miri as race oracles on the executions produced; rustc for the Send/Sync fact. Value comparisons are not judged under Miri (it randomises float intrinsics and fn-pointer addresses).",
             "DESIGN.md 3/C20"),
 }
